@@ -59,7 +59,9 @@ theorem runAuth_suffix (fx : Facts) (a : Authr) (env : Env) (details : Dict) (sc
           · exact List.suffix_refl _
           · split
             · exact List.suffix_refl _
-            · exact exchange_suffix _ _ _ _
+            · split
+              · exact List.suffix_refl _
+              · exact exchange_suffix _ _ _ _
 
 theorem authClient_suffix (fx : Facts) (rc : RealmCfg) (env : Env) (details : Dict) (script : List Arrival) :
     (authClient fx rc env details script).rest <:+ script := by
